@@ -808,6 +808,11 @@ def lane_ctor(ctx):
 
 # =============================================================== API sequences (C11 toggle, C16)
 
+RECURRING = [lambda: {'k' * 130: 1}, lambda: {'\u20ac' * 100: 'x', 'a': 1}, lambda: {'x-message-ttl': 60000, 'x-max-length-bytes': 3000000000},
+             lambda: [D('2.50'), D('2.5'), 0.0, -0.0, True, 1, 1.0], lambda: {'d': D('1E+2'), 'e': D('100')}, lambda: 'caf\u00e9',
+             lambda: {'q' * 200: {'q' * 200: None}}, lambda: 40000, lambda: 3000000000]
+
+
 def api_ops(ctx, n):
     """a random operation sequence: (driver line, thunk computing the real outcome)"""
     g = ctx.gen
@@ -819,6 +824,8 @@ def api_ops(ctx, n):
             ops.append(('api.toggle ' + arg, (lambda a=arg: (encode.support_deprecated_rabbitmq() if a == 'd' else encode.support_deprecated_rabbitmq(a == '1')) or 'ok') , 'toggle ' + arg))
         elif k < 0.4:
             v = g.value_ok(2, 3) if g.r.random() < 0.8 else g.integer()
+            if g.r.random() < 0.3:      # values that recur in the history (memoisation, once-only logic)
+                v = g.r.choice(RECURRING)()
             try:
                 line = 'api.encvalue ' + sx(v)
             except Unrepresentable:
